@@ -177,6 +177,14 @@ def flow_cases():
     for n in (77, 78, 79, 83, 84, 85):
         for dst in ('10.0.0.0/8', '10.1.0.0/16', '10.1.2.0/24', '10.1.2.3/32'):
             out.append({'kind': 'flow', 'field': 'flow-length', 'pos': f'{n}x{dst}', 'legal': True, 'kw': 'port', 'ctype': 4, 'values': [1000 + i for i in range(n)], 'dst': dst, 'then': 'discard'})
+    # lists with AND chains: each operator carries the AND bit exactly where the text has an '&'
+    for kw, ctype, txt, ops in (
+        ('destination-port', 5, '[ >8080&<8088 =3128 ]', [(0, 2, 8080), (1, 4, 8088), (0, 1, 3128)]),
+        ('packet-length', 10, '[ >200&<300 >400&<500 ]', [(0, 2, 200), (1, 4, 300), (0, 2, 400), (1, 4, 500)]),
+        ('port', 4, '[ =80 >1000&<2000 =443 =8443 ]', [(0, 1, 80), (0, 2, 1000), (1, 4, 2000), (0, 1, 443), (0, 1, 8443)]),
+        ('source-port', 6, '[ >=1024&<=65535 ]', [(0, 3, 1024), (1, 5, 65535)]),
+    ):
+        out.append({'kind': 'flow', 'field': 'flow-and-chain', 'pos': f'{kw} {txt}', 'legal': True, 'kw': kw, 'ctype': ctype, 'ops_text': txt, 'ops': ops, 'then': 'discard'})
     # traffic actions: the extended community must carry the numbers as written
     for txt, legal in (('redirect 65535:4294967295', True), ('redirect 65535:4294967296', False), ('redirect 65536:65535', True), ('redirect 4294967295:65535', True),
                        ('redirect 65536:65536', False), ('redirect 4294967296:1', False), ('mark 63', True), ('mark 64', None), ('mark 256', False), ('rate-limit 0', True), ('rate-limit -1', None)):
@@ -185,7 +193,9 @@ def flow_cases():
 
 
 def flow_text(c: dict, surface: str) -> str:
-    if 'values' in c:
+    if 'ops_text' in c:
+        body = f'match {{ destination 10.0.0.0/24; {c["kw"]} {c["ops_text"]}; }} then {{ {c["then"]}; }}'
+    elif 'values' in c:
         body = f'match {{ destination {c["dst"]}; {c["kw"]} [ {" ".join("=%d" % v for v in c["values"])} ]; }} then {{ {c["then"]}; }}'
     else:
         body = f'match {{ destination 10.0.0.0/24; {c["kw"]} ={c["value"]}; }} then {{ {c["then"]}; }}'
@@ -207,6 +217,72 @@ def action_expected(txt: str):
     if w[0] == 'rate-limit':
         return (bytes([0x80, 0x06, 0, 0]) + struct.pack('!f', float(w[1]))).hex()
     return None
+
+
+def brace_form(text: str) -> str | None:
+    """'route P next-hop N k v ...' -> 'route P { next-hop N; k v; ... }' (the block syntax of the same definition)"""
+    import re
+
+    m = re.match(r'^route (\S+) (.*)$', text)
+    if not m or '{' in text:
+        return None
+    words = m.group(2).split()
+    keys = {'next-hop', 'med', 'local-preference', 'origin', 'as-path', 'community', 'large-community', 'extended-community', 'aggregator', 'label', 'rd', 'path-information', 'atomic-aggregate', 'originator-id', 'cluster-list', 'attribute', 'aigp', 'split', 'watchdog', 'withdraw', 'name', 'bgp-prefix-sid', 'bogus-keyword'}
+    stmts, cur = [], []
+    depth = 0
+    for w in words:
+        if depth == 0 and w in keys and cur:
+            stmts.append(' '.join(cur))
+            cur = []
+        cur.append(w)
+        depth += w.count('[') + w.count('(') - w.count(']') - w.count(')')
+    if cur:
+        stmts.append(' '.join(cur))
+    return 'route %s { %s }' % (m.group(1), ' '.join(st + ';' for st in stmts))
+
+
+def run_sequence(res: Result, desc, cases) -> None:
+    """ONE long-lived API object takes the definitions one after the other, as a daemon does: whatever a refused definition
+    left behind, the next valid command must give exactly its own route - nothing of the refused one, nothing missing"""
+    from exabgp.reactor.api import API
+
+    api = API(None)
+    probe_n = 0
+    for case in cases:
+        forms = [('flat', case['text'])]
+        b = brace_form(case['text'])
+        if b:
+            forms.append(('block', b))
+        for form, text in forms:
+            try:
+                routes = list(api.api_route('announce ' + text))
+            except Exception as e:  # noqa
+                routes = []
+                res.count(f'sequence:refused-by-exception:{type(e).__name__}')
+            accepted = bool(routes)
+            if form == 'block' and case['legal'] and not accepted:
+                res.count('block-form-of-legal-definition-refused')  # the block grammar is narrower than the flat one for some keywords: informational
+            if not case['legal'] and accepted:
+                res.violation(f'C18/illegal-accepted:{case["field"]}:{case["pos"]}', f'api ({form} form): a value the wire cannot hold / malformed text was accepted', {'text': text, 'form': form, 'routes': [str(x) for x in routes][:2]}, f'sequence:{form}')
+                continue
+            # the probe: a plain valid command right behind
+            probe_n += 1
+            pfx = f'198.51.{probe_n % 250}.0/24'
+            try:
+                got = list(api.api_route(f'announce route {pfx} next-hop 192.0.2.77 med {probe_n % 1000}'))
+            except Exception as e:  # noqa
+                res.violation(f'C18/probe-raises-after:{"refused" if not accepted else "accepted"}:{form}', f'a valid command raised {type(e).__name__} after {text[:80]!r}', {'before': text, 'form': form}, f'sequence:{form}')
+                continue
+            seen = sorted(str(x.nlri) for x in got)
+            ok = len(got) == 1 and pfx in seen[0]
+            if ok:
+                attrs = str(got[0].attributes)
+                ok = f'med {probe_n % 1000}' in attrs and str(got[0].nexthop) == '192.0.2.77'
+            if not ok:
+                kind = 'leak' if len(got) > 1 else 'lost' if not got else 'altered'
+                res.violation(f'C18/next-command-{kind}-after-{"refused" if not accepted else "accepted"}-definition:{form}', f'after {text[:90]!r} ({"refused" if not accepted else "accepted"}) the valid command for {pfx} gave {[str(x) for x in got][:3]}', {'before': text, 'form': form, 'field': case['field'], 'position': case['pos']}, f'sequence:{form}')
+                continue
+            res.ok(f'sequence:{form}:{"accepted" if accepted else "refused"}', ('seq', case['field'], case['pos'], form))
 
 
 def run_flow_vpls(res: Result, desc) -> None:
@@ -284,6 +360,14 @@ def run_flow_vpls(res: Result, desc) -> None:
                     rule, rest = rf.dec_nlri(1, 133, packed)
                     comp = dict(rule['comps']).get(c['ctype'])
                     vals = [op[2] for op in comp] if comp else None
+                    if 'ops' in c:
+                        got_ops = [(op[0], op[1], op[2]) for op in comp] if comp else None
+                        if got_ops != c['ops'] or rest:
+                            res.violation('C18/not-as-written:flow-and-chain', f'{c["kw"]} {c["ops_text"]}: operators on the wire (and, op, value) {got_ops}, written {c["ops"]}', dict(wit, wire=str(rule)[:300]), cls)
+                            continue
+                        res.ok(cls, (c['field'], c['pos'], surface, 'accepted'))
+                        res.ok('flow-vpls-carried-as-written')
+                        continue
                     written = c.get('values', [c.get('value')])
                     if vals != written or rest:
                         res.violation(f'C18/not-as-written:{c["field"]}', f'{c["kw"]} on the wire {str(vals)[:80]} (+{len(rest)} octets left over), written {str(written)[:80]}', dict(wit, wire=str(rule)[:300]), cls)
@@ -439,6 +523,12 @@ def run_shard(desc):
                 res.ok('encoded-under-all-sessions')
         res.sample({'text': case['text'], 'legal': case['legal']}, limit=4)
     try:
+        run_sequence(res, desc, mine)
+    except Exception as e:  # noqa
+        import traceback
+
+        res.inconclusive.append('sequence part raised: ' + traceback.format_exc()[-500:])
+    try:
         run_flow_vpls(res, desc)
     except Exception as e:  # noqa
         import traceback
@@ -449,6 +539,6 @@ def run_shard(desc):
 
 def finish(merged, tier, seed):
     fields = {c.split(':')[0] for c in merged['classes']}
-    need = {'flow-port', 'flow-action', 'vpls-base', 'vpls-endpoint', 'mask', 'as-path', 'med', 'local-preference', 'community', 'large-community', 'label', 'rd', 'structure', 'grammar', 'aggregator-asn', 'origin', 'path-information'}
+    need = {'sequence', 'flow-port', 'flow-action', 'vpls-base', 'vpls-endpoint', 'mask', 'as-path', 'med', 'local-preference', 'community', 'large-community', 'label', 'rd', 'structure', 'grammar', 'aggregator-asn', 'origin', 'path-information'}
     if not need <= fields:
         merged['inconclusive'].append(f'fields never judged: {sorted(need - fields)}')
